@@ -1,8 +1,10 @@
 ------------------------------- MODULE MCCorr -------------------------------
 EXTENDS Corr
-PC(kind, ct, cl, cs) == [kind |-> kind, ctype |-> ct, clen |-> cl, cstride |-> cs]
+PC(kind, ct, cl, cs) == [kind |-> kind, ctype |-> ct, clen |-> cl, cstride |-> cs, cross |-> FALSE]
+PX(kind, ct, cl, cs) == [kind |-> kind, ctype |-> ct, clen |-> cl, cstride |-> cs, cross |-> TRUE]
 PS_Q == { PC("vec", "coor", 2, 1), PC("vec", "p2", 1, 2), PC("vec", "p2", 2, 1), PC("vec", "vel", 1, 1), PC("vec", "vel", 2, 2),
-          PC("unit", "coor", 1, 2), PC("unit", "p2", 2, 1), PC("scalar", "vel", 2, 1), PC("scalar", "vel", 1, 2) }
+          PC("unit", "coor", 1, 2), PC("unit", "p2", 2, 1), PC("scalar", "vel", 2, 1), PC("scalar", "vel", 1, 2),
+          PX("vec", "coor", 2, 1), PX("vec", "p2", 1, 1), PX("unit", "coor", 1, 2) }
 VS_Q == { <<1, 2, 2>>, <<2, -2, 1>>, <<2, 4, 4>>, <<0, -6, 0>> }
 VS_T == { <<1, 2, 2>>, <<2, -2, 1>>, <<2, 4, 4>>, <<0, -6, 0>>, <<-2, 1, 2>>, <<0, 0, 3>> }
 Witness1 == acfN >= 2 /\ runs > 1
@@ -11,5 +13,8 @@ Witness2 == acfN >= 1 /\ p.ctype = "p2" /\ \E k \in 2..(p.clen + 1) : acfSum[k] 
 NoWitness2 == ~Witness2
 Witness3 == acfN >= 1 /\ p.ctype = "vel" /\ p.cstride = 2
 NoWitness3 == ~Witness3
+\* the named deviation is real: a reachable state where the code's sums differ from the textbook cross correlation
+Witness4 == p.cross /\ acfN >= 1 /\ ~CrossTextbook
+NoWitness4 == ~Witness4
 MCSpec == Init /\ [][Next]_cvars
 =============================================================================
